@@ -465,6 +465,20 @@ func genC09(r *lib.Rand, tier string) History {
 			h.Steps = append(h.Steps, g.setparams())
 		}
 	}
+	if ovAtt >= 0 {
+		// keep the attacker from ever OWNING p++s himself (by a transfer to him or a colliding issue): the code's
+		// index entries of (actor_i++p, s) and (actor_i, p++s) would then be one and the same key and overwrite each
+		// other — a quirk of the unchanged code's owner index that the model (exact pairs) does not reproduce and
+		// that no C09 clause is about
+		kept := h.Steps[:0]
+		for _, op := range h.Steps {
+			if op.Sym == ovLong && ((op.K == "transfer" && op.B == ovAtt) || (op.K == "issue" && op.A == ovAtt)) {
+				continue
+			}
+			kept = append(kept, op)
+		}
+		h.Steps = kept
+	}
 	return h
 }
 
